@@ -1280,7 +1280,11 @@ def do_lift(code, d, rec):
             # still yields a (shorter, possibly empty) lifted function whose contract is then decided
             anchor = rest[rest.index('after') + 1]
             p0 = nth_occurrence(m, anchor, n, 'lift-range statement before the range')
-            pos = stmt_end(m, p0 + len(anchor.rstrip().rstrip('{(')), 'lift-range', anchor)
+            if re.match(r'\s*(impl|struct|enum|fn)\b', anchor):
+                # a local item (e.g. `impl Writeable for Serialized {..}` inside the function): it ends at its closing brace
+                pos = match_close(m, m.index('{', p0)) + 1
+            else:
+                pos = stmt_end(m, p0 + len(anchor.rstrip().rstrip('{(')), 'lift-range', anchor)
             anchor = ''
         elif ' ' in anchor.strip() and anchor not in m:
             # an anchor that spans lines: its blank-separated parts may be separated by any white space in the source
